@@ -90,7 +90,7 @@ CellExpect(k, c) == CASE c = "none" -> "absent"
 
 \* ---- coherence of the table (checked for every value of the pattern domain) ----------------------------------------
 Opts(k) == IF k = "gro" THEN {1, 3, 5} ELSE IF k = "pdb" THEN {0, 1, 2, 3} ELSE {0}     \* gro: precision; pdb: bit0 = no TER, bit1 = no header
-NAs == {1, 9, 10}
+NAs == {1, 9, 10, 30}
 VARIABLE st
 vars == <<st>>
 Init == st = [phase |-> "start"]
